@@ -509,6 +509,11 @@ func init() {
 			for k := 0; k < c.N(60, 2500); k++ {
 				libraryCtxCase(c, r)
 			}
+			// a registered operator that evaluates the SAME compiled expression for another context while the outer
+			// evaluation is in progress (a rule inherited along a parent chain)
+			for k := 0; k < c.N(40, 1500); k++ {
+				reentrantTryCase(c, r)
+			}
 			return []*Batch{b}
 		}
 	}
@@ -540,6 +545,9 @@ func init() {
 				for _, mask := range []int{15, r.Intn(16)} {
 					rc := &RunCfg{Opts: optSubset(mask, r.Bool()), Events: r.Bool()}
 					rc.Debug = !rc.Events
+					if r.Intn(4) == 0 {
+						rc.Events, rc.Debug = true, true // both observer options at once: still one event per step
+					}
 					bd := randBinding(r)
 					var av map[string]bool
 					if r.Bool() {
@@ -784,5 +792,139 @@ func libraryCtxCase(c *RunCtx, r *Rand) {
 		c.Direct = append(c.Direct, DirectViolation{What: "TryEval with the library's own context (variables registered after the context was built are unavailable to it) differs from TryEval with a truthful fetcher in which exactly those variables are unavailable",
 			Sig: "library-ctx", Sample: map[string]interface{}{"source": src, "values": fmt.Sprint(vals), "registered_after_context": late, "allow_undefined": undefined,
 				"fetcher": fmt.Sprintf("%T", ctx.VariableFetcher), "library_context": got, "truthful_fetcher": want}})
+	}
+}
+
+// reentrantTryCase: the operator `inherit` evaluates the very expression it occurs in for the parent of the current
+// context (leaf -> mid -> root), with TryEval or Eval. Every evaluation owns its operand stack, so the outer answer is
+// what it would be had the inner call been a constant: computed here by hand for each template.
+func reentrantTryCase(c *RunCtx, r *Rand) {
+	type lv struct {
+		a, b, u int64
+		hp, q   bool
+	}
+	depth := 2 + r.Intn(2)
+	chain := make([]lv, depth)
+	for i := range chain {
+		chain[i] = lv{a: int64(r.Intn(50)) + 1, b: int64(r.Intn(9)) + 2, u: int64(r.Intn(30)) + 100, hp: i < depth-1, q: r.Bool()}
+	}
+	uMissing := r.Bool() // the outermost context does not have `u`
+	tmpl := r.Intn(4)
+	src := []string{
+		"(+ a (if hp (inherit) 0) (if q u 0))",
+		"(* (+ a b) (if hp (inherit) 1) (if q u 1))",
+		"(- (+ a b (if q u 0)) (if hp (inherit) 0) b)",
+		"(if (and (> (+ a b) 0) (>= (if hp (inherit) 0) 0)) (+ b (if q u 0) a) 0)",
+	}[tmpl]
+	// expected value of level i (ok=false: not decidable, `u` is needed and missing)
+	var want func(i int) (int64, bool)
+	want = func(i int) (int64, bool) {
+		l := chain[i]
+		inner, okI := int64(0), true
+		if tmpl == 1 {
+			inner = 1
+		}
+		if l.hp {
+			inner, okI = want(i + 1)
+		}
+		uv, okU := int64(0), true
+		if tmpl == 1 {
+			uv = 1
+		}
+		if l.q {
+			uv = l.u
+			okU = !(i == 0 && uMissing)
+		}
+		switch tmpl {
+		case 0:
+			return l.a + inner + uv, okI && okU
+		case 1:
+			return (l.a + l.b) * inner * uv, okI && okU
+		case 2:
+			return (l.a + l.b + uv) - inner - l.b, okI && okU
+		default:
+			return l.b + uv + l.a, okI && okU
+		}
+	}
+	for _, useTry := range []bool{true, false} {
+		var self *eval.Expr
+		var ctxs []*eval.Ctx
+		level := 0
+		opts := []eval.Option{eval.RegVarAndOp(map[string]interface{}{"a": int64(0), "b": int64(0), "u": int64(0), "hp": false, "q": false})}
+		if r.Bool() {
+			opts = append(opts, eval.Optimizations(false))
+		}
+		conf := eval.NewConfig(opts...)
+		conf.OperatorMap["inherit"] = func(_ *eval.Ctx, _ []eval.Value) (eval.Value, error) {
+			level++
+			defer func() { level-- }()
+			if level >= len(ctxs) {
+				return nil, fmt.Errorf("no parent")
+			}
+			if useTry {
+				return self.TryEval(ctxs[level])
+			}
+			return self.Eval(ctxs[level])
+		}
+		e, err, pan := compileSafe(conf, src)
+		c.ExploreEvals++
+		c.ExploreHist["reentrant"]++
+		if err != nil || pan != nil || e == nil {
+			c.Notes = append(c.Notes, fmt.Sprintf("reentrant: compile of %s: %v %v", src, err, pan))
+			return
+		}
+		self = e
+		ctxs = nil
+		for i, l := range chain {
+			f := &RecFetcher{Vals: map[string]interface{}{"a": l.a, "b": l.b, "u": l.u, "hp": l.hp, "q": l.q}, Rec: &Recorder{}}
+			if i == 0 && uMissing {
+				f.Avail = map[string]bool{"a": true, "b": true, "hp": true, "q": true, "u": false}
+			}
+			ctxs = append(ctxs, &eval.Ctx{VariableFetcher: f})
+		}
+		wv, wok := want(0)
+		wantS := fmt.Sprintf("int64 %d", wv)
+		if !wok {
+			if useTry {
+				wantS = "DNE"
+			} else {
+				wantS = "error"
+			}
+		}
+		got := ""
+		guarded(map[string]interface{}{"call": "re-entrant evaluation", "source": src}, func() {
+			defer func() {
+				if p := recover(); p != nil {
+					got = fmt.Sprintf("panic: %v", p)
+				}
+			}()
+			level = 0
+			var v eval.Value
+			var er error
+			if useTry {
+				v, er = e.TryEval(ctxs[0])
+			} else {
+				v, er = e.Eval(ctxs[0])
+			}
+			switch {
+			case er != nil:
+				got = "error"
+				if wok {
+					got = "error: " + er.Error()
+				}
+			case v == eval.DNE:
+				got = "DNE"
+			default:
+				got = fmt.Sprintf("%T %v", v, v)
+			}
+		})
+		if got != wantS {
+			what := "Eval"
+			if useTry {
+				what = "TryEval"
+			}
+			c.Direct = append(c.Direct, DirectViolation{What: what + " of an expression whose registered operator evaluates the same compiled expression for a parent context: the outer answer is not the one obtained with the inner value as a constant",
+				Sig: "reentrant-" + what, Sample: map[string]interface{}{"source": src, "chain_leaf_to_root": fmt.Sprintf("%+v", chain), "u_unavailable_in_leaf": uMissing, "got": got, "want": wantS}})
+		}
 	}
 }
